@@ -937,7 +937,124 @@ def c10_phases(ctx):
                       "single-bit corruptions of a valid buffer, x keygen and sign, x 6 hashes"}]
 
 
-REGISTRY["C10"] = {"phases": c10_phases}
+# ---- multi-step histories of ONE buffer: behaviours of the HssAux protocol model (TLC simulation) ----
+def gen_aux_walks(ctx, num):
+    rc, out, st = run_tlc("GenAuxWalks", "GenAuxWalks.cfg", os.path.join(ctx["workdir"], "meta-auxwalks"), workers=1, xmx="4g", timeout=900,
+                          extra=["-simulate", "num=%d" % num, "-depth", "60", "-seed", str(seed_int() + 29)])
+    walks = tlc_printed(out, "WALK")
+    uniq = {}
+    for w in walks:
+        uniq.setdefault(json.dumps(w[:-1]), w)      # TLC prints one line per successor of the last step
+    if not uniq:
+        raise ToolError("GenAuxWalks produced no walk: " + out[-1500:])
+    return list(uniq.values())[:num], st
+
+
+def aux_real_len(c, n):
+    """model length (hash units; level word and MAC one unit each) -> bytes, thresholds preserved"""
+    if c <= 1:
+        return c
+    return 4 + n + (c - 2) * n
+
+
+def aux_word_hex(levels):
+    v = 0
+    for l in levels:
+        v |= 1 << l
+    return "%08x" % (0x80000000 | v) if levels else "80000000"
+
+
+def concretise_aux_walk(name, walk, alg, params, wi):
+    n = N_OF[alg]
+    keys = {"a": seed_hex(name + "/a", alg), "b": seed_hex(name + "/b", alg)}
+    total = lifetime_of(params)
+    cmds = [cmd_keygen(alg, params, keys[k], out={"sk": "sk_" + k, "pk": "pk_" + k}) for k in ("a", "b")]
+    cmds.append({"op": "set", "slot": "aux", "value": ""})
+    A = slot("aux")
+    nsig = 0
+    for i, a in enumerate(walk):
+        kind = a["a"]
+        word = a["word"]
+
+        def off_of(level):
+            return 4 + sum(n << l for l in word if l < level)
+        size_word = 4 + n + sum(n << l for l in word)
+        if kind == "keygen":
+            cmds.append(cmd_keygen(alg, params, keys[a["k"]], aux=A if a["aux"] else None, out={"sk": "x", "pk": "y", "aux": "aux"} if a["aux"] else {"sk": "x", "pk": "y"},
+                                   meta={"class": "aux_walk", "step": i}))
+        elif kind == "sign":
+            ctr = det_int("%s/ctr/%d" % (name, i), total)
+            m = msg_hex("%s/m/%d" % (name, i), 12)
+            cmds.append(cmd_sign(alg, key_at("sk_" + a["k"], ctr), m, aux=A if a["aux"] else None,
+                                 out={"sig": "sig", "aux": "aux"} if a["aux"] else {"sig": "sig"}, meta={"class": "aux_walk", "step": i}))
+            cmds.append(cmd_verify(alg, m, slot("sig"), slot("pk_" + a["k"])))
+            nsig += 1
+        elif kind == "new_zero":
+            cmds.append({"op": "set", "slot": "aux", "value": {"rep": aux_real_len(a["c"], n), "byte": 0}})
+        elif kind == "new_garbage":
+            ln = aux_real_len(a["c"], n)
+            head = aux_word_hex(a["s"]) if a["m"] else "00" + det_bytes("%s/g0/%d" % (name, i), 3).hex()
+            cmds.append({"op": "set", "slot": "aux", "value": {"cat": [head, {"rand": max(0, ln - 4), "tag": "%s/g/%d" % (name, i)}]}})
+        elif kind == "truncate":
+            cmds.append({"op": "set", "slot": "aux", "value": {"mut": A, "kind": "trunc", "len": aux_real_len(a["c"], n)}})
+        elif kind == "pad":
+            fill = {"rep": 1 << 16, "byte": 0} if (wi + i) % 2 else {"rand": 1 << 16, "tag": "%s/p/%d" % (name, i)}
+            cmds.append({"op": "set", "slot": "aux", "value": {"mut": {"mut": A, "kind": "extend", "with": fill}, "kind": "trunc", "len": aux_real_len(a["c"], n)}})
+        elif kind == "tamper_data":
+            lv = a["lv"]
+            pos = off_of(lv) + det_int("%s/td/%d" % (name, i), n << lv)
+            cmds.append({"op": "set", "slot": "aux", "value": {"mut": A, "kind": "flip", "off": pos, "bit": det_int("%s/tb/%d" % (name, i), 8)}})
+        elif kind == "tamper_word":
+            cmds.append({"op": "set", "slot": "aux", "value": {"mut": A, "kind": "set", "off": 0, "with": aux_word_hex(a["s"])}})
+        elif kind == "tamper_mac":
+            cap = aux_real_len(a["cap"], n)
+            pos = (size_word - 1 - det_int("%s/tm/%d" % (name, i), n)) if cap >= size_word else max(0, cap - 1)
+            cmds.append({"op": "set", "slot": "aux", "value": {"mut": A, "kind": "flip", "off": pos, "bit": det_int("%s/tmb/%d" % (name, i), 8)}})
+        elif kind == "clear_marker":
+            cmds.append({"op": "set", "slot": "aux", "value": {"mut": A, "kind": "set", "off": 0, "with": "00"}})
+        elif kind == "nop":
+            pass
+        else:
+            raise ToolError("unknown aux walk action " + kind)
+    return {"name": name, "cmds": cmds, "cost": 1 + 2 * tree_cost(alg, *params[0]) + 0.05 * len(cmds) * (3 if params[0][0] == 8 else 1), "walk": walk}
+
+
+def c10_walk_groups(ctx):
+    quick = ctx["tier"] == "quick"
+    walks, st = gen_aux_walks(ctx, 36 if quick else 240)
+    groups = []
+    labels = set()
+    for wi, w in enumerate(walks):
+        alg = ALGS[wi % 6]
+        w0 = [4, 2, 4, 8, 4, 1][wi % 6] if not quick else [4, 2, 4, 4, 4, 2][wi % 6]
+        params = [(w0, 5)] if wi % 3 else [(w0, 5), (4, 2)]
+        groups.append(concretise_aux_walk("c10/walk/%d" % wi, w, alg, params, wi))
+        for a in w:
+            labels.add((a["a"], a.get("aux"), bool(a.get("marker")), len(a.get("word", []))))
+    ctx["aux_walk_stats"] = {"walks": len(walks), "sim_states": st["states"], "distinct_step_labels": len(labels)}
+    return groups
+
+
+def c10_phases_with_walks(ctx):
+    ph = c10_phases(ctx)
+    ph[0]["groups"] += c10_walk_groups(ctx)
+    ph[0]["space"] += "; multi-step histories of one buffer (behaviours of HssAux.tla: keygen/sign of two keys interleaved with tampering, truncation, padding, replacement)"
+    return ph
+
+
+def c10_design(ctx):
+    runs = [{"module": "MC_Aux", "cfg": "MC_Aux_h3.cfg", "workers": 8, "xmx": "6g"},
+            {"module": "MC_Aux", "cfg": "MC_Aux_neg_nomac.cfg", "workers": 4, "expect": "Invariant OnlyAuthenticatedIsRead is violated"},
+            {"module": "MC_Aux", "cfg": "MC_Aux_neg_noclear.cfg", "workers": 4, "expect": "Invariant AuxTransparent is violated"},
+            # the design-level form of the known finding (KNOWN_FINDINGS.json, C10): a buffer MACed for the same seed and other parameters is read back
+            {"module": "MC_Aux", "cfg": "MC_Aux_known_sameseed.cfg", "workers": 4, "expect": "Invariant AuxTransparent is violated"}]
+    if ctx["tier"] != "quick":
+        runs.append({"module": "MC_Aux", "cfg": "MC_Aux_h5.cfg", "workers": 12, "xmx": "12g", "timeout": 3000})
+    return runs
+
+
+REGISTRY["C10"] = {"phases": c10_phases_with_walks, "design": c10_design,
+                   "coverage_extra": lambda ctx, cov: {"aux_walk_generation": ctx.get("aux_walk_stats")}}
 
 
 # =================================================================================================
